@@ -123,8 +123,26 @@ def run_scenario(chk, sc, cfgseed, as_string=False, flavour="sched", workers=Non
     with shims.fs_audit() as audit:
         try:
             with shims.pool_shim(shims.Scheduler(plan=plan, workers=workers), flavour), core.quiet():
-                combine(PlotfileCooker(t1), PlotfileCooker(t2), pltout=out,
-                        vars1=pyvars(sc["v1"], as_string), vars2=pyvars(sc["v2"], as_string))
+                if as_string and cfgseed % 2 == 0:
+                    # the same request typed on the command line (names as one blank-separated string, an explicit output)
+                    import sys
+                    from amr_kitchen.combine import cli as combine_cli
+                    argv = ["combine", "-p1", t1, "-p2", t2, "-o", out]
+                    for flag, v_ in (("-v1", pyvars(sc["v1"], True)), ("-v2", pyvars(sc["v2"], True))):
+                        if v_ is not None:
+                            argv += [flag, v_]
+                    old_argv = sys.argv
+                    sys.argv = argv
+                    try:
+                        combine_cli.main()
+                    except SystemExit as e:
+                        if e.code not in (None, 0):
+                            raise RuntimeError("combine exited with status %r" % (e.code,))
+                    finally:
+                        sys.argv = old_argv
+                else:
+                    combine(PlotfileCooker(t1), PlotfileCooker(t2), pltout=out,
+                            vars1=pyvars(sc["v1"], as_string), vars2=pyvars(sc["v2"], as_string))
         except Exception as e:
             exc = e
         events = list(audit.events)
